@@ -84,7 +84,7 @@ CHECKS = {
         rule=('cases = (code int32, text) with text from: table row x parameter {int64 range, negative, 0, huge, empty, abc, 1e3, arabic digit, spaces, +5, 0x10, %d}, '
               'all catalogued names, near misses of rows, mutated names, arbitrary strings with % verbs. Non-trivial: text non-empty and one of '
               '{row match, known name, unknown text}; distinct by hash of (code,text).'),
-        must_hit=['row:param-int', 'row:param-absent', 'row:param-non-numeric', 'row:param-out-of-range', 'row:param-negative', 'known-name',
+        must_hit=['concurrent:evaluations', 'row:param-int', 'row:param-absent', 'row:param-non-numeric', 'row:param-out-of-range', 'row:param-negative', 'known-name',
                   'unknown-text', 'unknown-text-with-percent', 'client:errors', 'client:migrate', 'client:migrate-unconfigured', 'client:data-centre-known-to-another-client-only'] + ['row%02d' % i for i in range(15)],
         assumptions=['for a matching row whose parameter is not a decimal int the statement fixes only: no panic, Code kept; Message may be the text or the X form (accepted either way), "+5" likewise',
                      'the catalogue of documented descriptions is read from errors.go as data'],
@@ -102,8 +102,8 @@ CHECKS = {
               'client secret a, forced corner in {none,A,B,u,S} x {1,2} zero bytes, B minimal-length or 256-byte, public or deterministic entry point, '
               'or an out-of-range B in {0,empty,p,p+1,short,long}, or the empty password). Every case is non-trivial (each costs two 100000-round PBKDF2); '
               'distinct by hash of all fields.'),
-        must_hit={'quick': ['corner:*', 'badB:*', 'g=3', 'g=4', 'g=7'],
-                  'thorough': ['corner:A1', 'corner:B1', 'corner:u1', 'corner:S1', 'corner:A2', 'corner:B2', 'corner:1', 'public-api', 'empty-password',
+        must_hit={'quick': ['concurrent:evaluations', 'corner:*', 'badB:*', 'g=3', 'g=4', 'g=7'],
+                  'thorough': ['concurrent:evaluations', 'corner:A1', 'corner:B1', 'corner:u1', 'corner:S1', 'corner:A2', 'corner:B2', 'corner:1', 'public-api', 'empty-password',
                                'badB:zero', 'badB:p', 'badB:p+1', 'badB:short', 'badB:long', 'B-minimal-length']},
         assumptions=['group = Telegram\'s 2048-bit prime with g in {3,4,7} (the generators valid for it)', 'crypto/sha256, crypto/sha512, crypto/hmac, math/big of the standard library',
                      'the reference conventions reproduce the M1 recorded in the repository\'s 2fa_test.go (checked in bin/setup)'],
@@ -155,7 +155,7 @@ CHECKS = {
         rule=('value = registered Go type x recorded builder choices (depth <= 3 quick / 6 thorough). Non-trivial: contains a multi-field group in present-mixed state, '
               'a boundary-length string (252..257, 65535..65536, 2^24-1), nesting depth >= 2, a vector of >= 2 elements, a 128/256-bit integer with a leading zero '
               'byte, or a non-finite/negative-zero double; distinct by hash of (type, choices).'),
-        must_hit=['feat:group-present-mixed', 'feat:str-len-252..257', 'feat:vector>=2', 'feat:depth>=2', 'feat:int128/256-leading-zero', 'feat:double-nonfinite-or-negzero',
+        must_hit=['concurrent:evaluations', 'feat:group-present-mixed', 'feat:str-len-252..257', 'feat:vector>=2', 'feat:depth>=2', 'feat:int128/256-leading-zero', 'feat:double-nonfinite-or-negzero',
                   'feat:enum-member', 'feat:message-container', 'top-level-enum', 'feat:str-len%4=0', 'feat:str-len%4=1', 'feat:str-len%4=2', 'feat:str-len%4=3'],
         fold={'ctor:': ('constructors_covered', 1220), 'group:': ('flag_group_states_covered', 60)},
         assumptions=['values are canonical TL values: mandatory object fields non-nil, object/enum members of a present group non-nil, true-typed members equal the presence of their group',
@@ -193,7 +193,7 @@ CHECKS = {
         technique='schema-directed differential testing against an independent TL codec (rapid + exhaustive flag-pattern enumeration)',
         rule=('case = (definition, builder choices, forced flag pattern / string length). Non-trivial: the definition has >= 1 parameter and the value exercises a set flag bit, '
               'a string of >= 254 bytes, a vector of >= 2 elements or a nested object; distinct by hash of (definition, choices).'),
-        must_hit=['feat:flag-bit-set', 'feat:string>=254', 'feat:vector>=2', 'feat:nested-object', 'feat:len-252..257', 'feat:len-0..5', 'feat:len-16777215', 'feat:len-16777216',
+        must_hit=['concurrent:evaluations', 'feat:flag-bit-set', 'feat:string>=254', 'feat:vector>=2', 'feat:nested-object', 'feat:len-252..257', 'feat:len-0..5', 'feat:len-16777215', 'feat:len-16777216',
                   'direction:encode', 'direction:decode', 'def:special:container', 'def:special:gzip', 'def:special:vector'],
         fold={'def:': ('definitions_covered', 1225)},
         assumptions=['present groups have at least one non-zero member (a present group of only zero scalars cannot be expressed as a Go value: the library defines presence by non-zero members)',
